@@ -8,7 +8,8 @@ CHUNK = 1
 TOLERANCE = 'currents/impedances 5e-4 (cond<=1e3; 5e-7*cond to 1e5); gain offset 3.0103 +- 0.01 dB'
 RULE = ('Every structure with <= D wires on the ground lattice (two points on the plane; vertical extra structures '
         'added) inside the stated domain x EVERY pulse position as single feed (k>=3 junction pulses excluded) x '
-        'two 2-source sets with complex voltages: the ground model is solved and compared with the free-space model '
+        'two 2-source sets with complex voltages; plus a grounded wire at 11 lean angles 0..20 deg (x 2 azimuths x radii x '
+        'either end grounded, alone / with a top wire): the ground model is solved and compared with the free-space model '
         'of wires + mirror images built by the harness (image wires written reversed, grounded wires continued into '
         'their image, ground-end feed = 2V on the junction pulse). State = (structure, feed set); transition = one '
         'ground solve + one free-space solve. Non-trivial: at least one non-vertical wire or a grounded end.')
@@ -25,6 +26,28 @@ def cases(tier, seed):
     D = 3 if tier == 'quick' else 4
     yield from _cases(tier, seed, False)
     yield from _cases(tier, seed, True)
+    yield from _lean(tier, seed)
+
+
+LEAN = (0., 0.02, 0.1, 0.3, 0.5, 0.7, 0.9, 1.5, 3., 8., 20.)
+
+
+def _lean(tier, seed):
+    """a grounded wire around the vertical/non-vertical classification the matrix fill keys its shortcuts on:
+    lean angles from exactly vertical through fractions of a degree to clearly sloping, either end grounded,
+    alone and with a sloping top wire"""
+    rot, sc, f = geom.variant(seed)
+    lam = geom.C_MININEC / f
+    for lean in LEAN:
+        for az in (0., 37.):
+            a, b = np.radians(lean), np.radians(az)
+            base = np.array([0.03, -0.02, 0.]) * lam
+            top = base + 0.23 * lam * np.array([np.sin(a) * np.cos(b), np.sin(a) * np.sin(b), np.cos(a)])
+            tip = top + np.array([0.09, 0.05, 0.04]) * lam
+            pts = [list(base), list(top), list(tip)]
+            for r in (3e-5, 4e-4) if tier == 'quick' else (3e-5, 2e-4, 4e-4, 1e-3):
+                for es in ([(0, 1)], [(1, 0)], [(0, 1), (1, 2)], [(2, 1), (1, 0)]):
+                    yield dict(f=f, lam=lam, pts=pts, name='lean%g/%g' % (lean, az), st=[dict(a=x, b=y, n=(6, 3)[i], r=r * lam) for i, (x, y) in enumerate(es)])
 
 
 def _cases(tier, seed, special):
@@ -153,6 +176,6 @@ def evaluate(c):
                 viol.append(('DEV-%s-%s' % (k, kind), '%s deviates %.3g > %.3g, feeds %s, cond %.0f' % (k, x, t, [f[0][0] for f in fs], cond)))
     und = sorted((e['a'], e['b'], e['n'], round(e['r'], 9)) for e in c['st'])
     ngnd = sum(1 for p in g0.pulses if p.ground.any())
-    return dict(viol=viol[:6], canon=['%s|%d' % (und, i) for i in range(ns)], nontriv=True, trans=2 * ns, traces=ns,
+    return dict(viol=viol[:6], canon=['%s%s|%d' % (c.get('name', ''), und, i) for i in range(ns)], nontriv=True, trans=2 * ns, traces=ns,
                 evals=2 * ns, dev=worst, outcome='gnd=%d,wires=%d' % (ngnd, len(c['st'])), note=wnote,
                 skips={'gain-undefined(net power<5% of sum |P_source|)': nogain} if nogain else None)
